@@ -7,6 +7,9 @@ for d in seeded/*/; do
   if python3 -c "import json,sys;sys.exit(0 if json.load(open('$d/meta.json')).get('neutralised_by') else 1)"; then
     echo "$id $prop SKIPPED (neutralised by a later fix: commit, see meta.json)"; continue
   fi
+  if python3 -c "import json,sys;sys.exit(0 if json.load(open('$d/meta.json')).get('known_miss') else 1)"; then
+    echo "$id $prop KNOWN-MISS (recorded as not detected, see meta.json and DESIGN.md 8.4)"; continue
+  fi
   out=$(./seedrun_overlay.sh $id $prop $TIER 2>&1)
   rc=$(echo "$out" | grep -o "rc=[0-9]*" | tail -1)
   sigs=$(echo "$out" | grep -o "sig=[^ ]*" | sort -u | tr '\n' ' ')
